@@ -260,6 +260,36 @@ pub fn run(ctx: &Ctx) -> Report {
             }
         }
     }
+    // ---- the authentication pair: Authentication Data needs an Authentication Method in the same list, in any order and
+    // with anything in between (property order is not significant)
+    for loc in [Loc::Connect, Loc::Connack, Loc::Auth] {
+        let m = Prop { id: 21, val: PVal::Str(b"m".to_vec()) };
+        let dta = Prop { id: 22, val: PVal::Bin(b"d".to_vec()) };
+        let u = Prop { id: 38, val: PVal::Pair(b"k".to_vec(), b"v".to_vec()) };
+        // (Authentication Data WITHOUT a method is a cross-property rule C18 does not state: not judged)
+        let lists: [(&str, Vec<Prop>, bool); 7] = [
+            ("method,data", vec![m.clone(), dta.clone()], true),
+            ("data,method", vec![dta.clone(), m.clone()], true),
+            ("data,user,method", vec![dta.clone(), u.clone(), m.clone()], true),
+            ("user,data,user,method,user", vec![u.clone(), dta.clone(), u.clone(), m.clone(), u.clone()], true),
+            ("method,user,data", vec![m.clone(), u.clone(), dta.clone()], true),
+            ("data,method,data", vec![dta.clone(), m.clone(), dta.clone()], false),
+            ("method,data,method", vec![m.clone(), dta.clone(), m.clone()], false),
+        ];
+        for (shape, list, want) in lists {
+            for variant in [0u8, 1] {
+                let has_one_method = list.iter().filter(|p| p.id == 21).count() == 1;
+                if matches!(loc, Loc::Auth) && !has_one_method {
+                    // (an AUTH whose reason needs a method is judged on the method itself by the single cells)
+                    continue;
+                }
+                let pkt = carrier(loc, list.clone(), has_one_method, variant);
+                let cell = format!("authentication pair [{}] in {:?} carrier={}", shape, loc, variant);
+                rep.hit("T6-authentication-pair-in-any-order");
+                judge(&mut rep, &pkt, &cell, want, &format!("authpair;loc={:?};shape={}{}", loc, shape, if variant == 1 { ";carrier=alt" } else { "" }), case);
+            }
+        }
+    }
     // ---- seeded random lists
     let n = ctx.budget(20_000, 2_000_000);
     let r2 = run_cases(ctx, 2, n, "random lists", |idx, seed, rep| {
